@@ -50,7 +50,7 @@ def run(ctx):
     ctx.notes["as_coded_counterexample"] = "AsCoded=TRUE (leave the locked region by longjmp): TLC reports %s" % (r.violated or ("rc=%d" % r.rc))
 
     # ---- leg 3 (main leg): real threads, forced pre-emption at lock boundaries, H3 events at the linearization point
-    runs = [(2, 1500), (4, 1200), (8, 800), (16, 400)] if quick else [(2, 6000), (3, 6000), (4, 5000), (8, 4000), (12, 3000), (16, 2500), (16, 2500), (8, 6000)]
+    runs = [(2, 1500), (4, 1200), (8, 800), (16, 400)] if quick else [(2, 6000), (3, 6000), (4, 5000), (8, 4000), (12, 3000), (16, 2500), (16, 2500), (8, 6000)] * 3
     nontrivial = 0
     entries = [0] * 11
     for i, (nt, nops) in enumerate(runs):
@@ -64,7 +64,7 @@ def run(ctx):
             if i == 0:
                 ctx.sample({"source": "real threads", "threads": nt, "events": info["events"], "owner_switches": info["switches"], "first_events": info["head"]})
     # ThreadSanitizer build of the same harness: a data race on the detector's state is a rejected execution
-    for i, (nt, nops) in enumerate([(4, 600), (8, 300)] if quick else [(4, 3000), (8, 2000), (16, 1000)]):
+    for i, (nt, nops) in enumerate([(4, 600), (8, 300)] if quick else [(4, 3000), (8, 2000), (16, 1000), (2, 5000), (16, 2000), (6, 3000)]):
         seed = ctx.seed * 1000 + 500 + i
         meta = {"mode": "run", "seed": seed, "threads": nt, "ops": nops, "yield": 1, "tsan": True}
         rc, out, to, logp = one_run(ctx, exe_tsan, seed, nt, nops, "t%d" % i, 1, timeout=600)
